@@ -414,6 +414,12 @@ class C04(Prop):
                 self.add(out, m, w)
             st.append(("layout-" + mode, out))
         out = []
+        # records with several RDATA names, random legal pointer chains (second and later names reached through 2+ hops)
+        for m, w, rn in S.valid_messages(rng, n // 3, maxrec=6, types=["SOA", "MINFO", "RP", "PX", "MX", "SRV", "NS", "SVCB"],
+                                         modes=("rand",), case=False):
+            self.add(out, m, w)
+        st.append(("multi-name-rdata-pointer-chains", out))
+        out = []
         for m in boundary_messages():
             for addr in ("min", "full"):
                 w, _ = G.render_dns(m, G.Layout(rng, mode="lib", addr=addr))
@@ -564,6 +570,7 @@ class C05(Prop):
              ("boundary-values", ["E Dns " + G.canon(m) for m in boundary_messages()]),
              ("nested-names", ["E Dns " + G.canon(nested_names_msg(k)) for k in range(1, 65)]),
              ("around-0x3FFF", straddle_cases(range(-48, 49, 4) if tier == "quick" else range(-48, 49))),
+             ("hundreds-of-distinct-names-reused", ["E Dns " + G.canon(many_names_msg(k)) for k in (300, 400)]),
              ("big", ["E Dns " + G.canon(m) for m in big_messages(rng, [16300, 16500, 30000, 60000] if tier == "quick"
                                                                   else [16000, 16300, 16384, 16500, 30000, 50000, 60000, 64000])])]
         return s
@@ -587,6 +594,16 @@ def name_seq_msg(names, spacer=0, rng=None):
         an = [('RR', 10, ('N', []), 1, 0, ('G', [bytes(spacer)]))]
     return ('Dns', 1, ('F', 0, 0, 0, 0, 0, 0, 0, 0, 0), [], an,
             [('RR', 2, ('N', list(n)), 1, 0, ('G', [('N', list(n2))])) for n, n2 in zip(names[0::2], names[1::2] + [[]])], [])
+
+
+def many_names_msg(count, zones=7, reuse=True):
+    """`count` distinct owner names host<i>.zone<i mod zones>.example.org, then (reuse) all of them again: more
+    distinct suffixes than any fixed-size compression table would hold"""
+    names = [[b"host%d" % i, b"zone%d" % (i % zones), b"example", b"org"] for i in range(count)]
+    seq = names + (names if reuse else [])
+    return ('Dns', 9, ('F', 1, 0, 0, 0, 0, 0, 0, 0, 0), [],
+            [('RR', 1, ('N', list(n)), 1, 60, ('G', [i & 0xFFFFFFFF])) for i, n in enumerate(seq[:count])], [],
+            [('RR', 1, ('N', list(n)), 1, 60, ('G', [i & 0xFFFFFFFF])) for i, n in enumerate(seq[count:])])
 
 
 def straddle_cases(deltas):
@@ -652,8 +669,10 @@ class C06(Prop):
             tricky.append("E Dns " + G.canon(name_seq_msg([tpool[i] for i in combo])))
         for _ in range(300 if tier == "quick" else 3000):
             tricky.append("E Dns " + G.canon(name_seq_msg([rng.choice(tpool) for _ in range(rng.choice([3, 4, 6]))])))
+        many = ["E Dns " + G.canon(many_names_msg(k)) for k in ((100, 300, 400) if tier == "quick" else (100, 257, 300, 400, 513, 1000))]
         return [("exhaustive<=3-names", ex), ("random-sequences", rnd), ("nesting-1..64", nest),
-                ("around-0x3FFF", edge), ("long-sequences", longs), ("label-boundaries", tricky)]
+                ("around-0x3FFF", edge), ("long-sequences", longs), ("label-boundaries", tricky),
+                ("hundreds-of-distinct-names-reused", many)]
 
     def oracle(self, case, line):
         return encode_oracle(case, line, expect_ok=True)
@@ -1030,8 +1049,9 @@ class C14(Prop):
                      [b"y", b"l3", b"l4", b"l5", b"l6", b"l7", b"zone", b"example"], [b"z", b"l6", b"l7", b"zone", b"example"],
                      [b"w", b"zone", b"example"], [b"v", b"example"]]
             edge.append("R %d 16 E Dns %s" % (max(reps, 64), G.canon(name_seq_msg(names, spacer))))
+        many = ["R %d 16 E Dns %s" % (max(reps // 2, 16), G.canon(many_names_msg(k))) for k in (300, 400)]
         return [("encode-repeated", enc), ("encode-name-heavy-16-threads", heavy), ("decode-repeated", dec),
-                ("encode-straddling-0x3FFF-16-threads", edge)]
+                ("encode-straddling-0x3FFF-16-threads", edge), ("encode-hundreds-of-names-16-threads", many)]
 
     def view(self, case, line):
         # determinism is the property: compare how many distinct results there were and whether the input
